@@ -140,3 +140,25 @@ def run_one(P, relname, content_now, ecc_now, workdir, recorded_size=None):
         res["request"] = req
         res["reply"] = "%s %d %d %d" % ("none" if res["out"] is None else hx(res["out"]), corrupted, complete, partial)
     return res
+
+
+def run_tree(P, tree_now, ecc_now, workdir):
+    """real `-c` run on a whole tree with the hash / codec calls recorded; returns dict(rc, stats, out, request, reply).
+    The request replays the run into the Lean model of the complete correction loop (Pff.Run.run)."""
+    from props.C10 import fbits
+    shutil.rmtree(workdir, ignore_errors=True)
+    root = os.path.join(workdir, "root")
+    eu.write_tree(root, tree_now)
+    eccp = os.path.join(workdir, "ecc.txt")
+    open(eccp, "wb").write(ecc_now)
+    with OpsRecorder(P.mbs) as rec:
+        rc, stats, out, txt = eu.correct(P, root, eccp, os.path.join(workdir, "out"))
+    res = {"rc": rc, "stats": stats, "out": out, "text": txt}
+    if stats is not None and not rc.startswith("exception"):
+        fs = " ".join("%s:%s" % (hx(p.encode("latin-1")), hx(c)) for p, c in sorted(tree_now.items()))
+        res["request"] = "eccrun %s %s %d %d %d %d %d %d %s %d %d %d %s %s ; %s" % (
+            "h" if P.tool == "header" else "w", "0" if P.no_fast_check else "1", threshold(P.tool), eu.HASHLEN[P.hash], P.mbs, P.size,
+            P.k_of_rate(P.r1), P.k_of_rate(P.ri), "1" if P.ignore_size else "0", fbits(P.r1), fbits(P.r2), fbits(P.r3), hx(ecc_now), fs, rec.tables())
+        outs = ",".join(sorted("%s:%s" % (hx(p.encode("latin-1")), hx(c)) for p, c in out.items())) or "-"
+        res["reply"] = "%s %d %d %d %d %d %s" % (rc, stats[0], stats[1], stats[2], stats[3], stats[5], outs)
+    return res
